@@ -269,6 +269,13 @@ pub fn gen_content(rng: &mut Rng, max_cells: u64, allow_c: bool) -> Content {
     rng.shuffle(&mut c.pointers);
     rng.shuffle(&mut c.labels);
     rng.shuffle(&mut c.cstrings);
+    for b in c.cstrings.iter_mut() {
+        match rng.below(3) {
+            0 => {}
+            1 => b.1.reverse(),
+            _ => rng.shuffle(&mut b.1),
+        }
+    }
     c
 }
 
@@ -412,6 +419,14 @@ fn build(c: &Content, rng: &mut Rng) -> BinArchive {
         chains.push(ch);
     }
     for (s, addrs) in &c.cstrings {
+        // the cells of one c-string in every call order (ascending, descending, mixed): the bucket order is
+        // hidden state that must not influence the image
+        let mut addrs = addrs.clone();
+        match rng.below(4) {
+            0 => {}
+            1 => addrs.reverse(),
+            _ => rng.shuffle(&mut addrs),
+        }
         chains.push(addrs.iter().map(|x| Op::CStr(*x, s.clone())).collect());
     }
     let mut order: Vec<usize> = Vec::new();
@@ -1085,7 +1100,7 @@ pub fn gen(seed: u64, tier: &str) -> Vec<String> {
         };
         lines.push(format!("c02.d2 ser BE {}", d2.fields(true)));
     }
-    let (n_ser, n_img, n_raw) = if thorough { (200_000, 100_000, 20_000) } else { (6_000, 3_000, 800) };
+    let (n_ser, n_img, n_raw) = if thorough { (200_000, 100_000, 20_000) } else { (4_500, 2_200, 600) };
     for i in 0..n_ser {
         let max_cells = if i % 10 == 0 { 40 } else if i % 3 == 0 { 6 } else { 16 };
         let c = gen_content(&mut rng, max_cells, true);
@@ -1361,6 +1376,42 @@ pub fn gen(seed: u64, tier: &str) -> Vec<String> {
             let c2 = Content { cstrings: vec![], ..c.clone() };
             let img = foreign_image(&c2, &mut rng);
             lines.push(format!("c01.w{:05} img {} {} {}", 1000 + l, end_tag(big), hex(&img), c2.fields(false)));
+        }
+    }
+    // one c-string text at 2-4 cells in EVERY bucket order (all permutations), another text in between, strings mixed in
+    {
+        fn perms(v: &[usize]) -> Vec<Vec<usize>> {
+            if v.len() <= 1 {
+                return vec![v.to_vec()];
+            }
+            let mut out = Vec::new();
+            for i in 0..v.len() {
+                let mut rest = v.to_vec();
+                let x = rest.remove(i);
+                for mut p in perms(&rest) {
+                    p.insert(0, x);
+                    out.push(p);
+                }
+            }
+            out
+        }
+        let mut k = 0usize;
+        for cells in [vec![4usize, 8], vec![0, 8, 16], vec![4, 12, 8, 20]] {
+            for p in perms(&cells) {
+                for big in [false, true] {
+                    let mut c = Content { big, data: rng.bytes(26), ..Default::default() };
+                    c.cstrings.push(("same".to_string(), p.clone()));
+                    let free: Vec<usize> = [0usize, 4, 8, 12, 16, 20].iter().cloned().filter(|x| !p.contains(x)).collect();
+                    if let Some(x) = free.first() {
+                        c.cstrings.push(("other".to_string(), vec![*x]));
+                    }
+                    if let Some(x) = free.get(1) {
+                        c.strings.push((*x, "same".to_string()));
+                    }
+                    lines.push(format!("c01.q{:05} ser {} {}", k, end_tag(big), c.fields(true)));
+                    k += 1;
+                }
+            }
         }
     }
     // bounded-exhaustive small scopes (cheap: run in both tiers)
